@@ -47,6 +47,11 @@ def decls():
                                     "properties": {"attributes": [{"name": a, "type": t[1], "size": t[2]} for a, t in attrs]}}, "use": q(s, n)})
                 out.append({"kind": "table", "ddl": "CREATE %sTYPE %s AS TABLE (%s);" % (orr, q(s, n), body),
                             "exp": {"schema": s, "type_name": n}, "tcols": [[a, t[1], t[2]] for a, t in attrs], "use": q(s, n)})
+        # table types whose columns carry options: they must be the columns CREATE TABLE reports for the same body
+        for body in ("id int PRIMARY KEY, nn varchar(5) NOT NULL, d int DEFAULT 1", "k decimal(10,2) NOT NULL DEFAULT 0, u varchar(9) UNIQUE",
+                     "a int NULL, b timestamp DEFAULT now() NOT NULL"):
+            out.append({"kind": "table", "ddl": "CREATE TYPE %s AS TABLE (%s);" % (q(s, n), body), "exp": {"schema": s, "type_name": n},
+                        "tbody": body, "use": q(s, n)})
         for AS in ("AS ", ""):
             for bt, tn, sz in (("varchar(10)", "varchar", 10), ("decimal(10,2)", "decimal", [10, 2]), ("CHAR(16)", "CHAR", 16), ("int", "int", None),
                                ("text", "text", None)):
@@ -177,6 +182,12 @@ def evaluate(case):
         if set(bad) == {"authorization"} and "AUTHORIZATION" in e:
             sym = "authorization-key-upper-case"
         diffs.append(diff(d["kind"] + " entity", sym, {k: v[0] for k, v in bad.items()}, {k: v[1] for k, v in bad.items()}))
+    if d.get("tbody"):
+        ref = run_ddl("CREATE TABLE zz_ref (%s);" % d["tbody"])
+        want = [[c.get(k) for k in ("name", "type", "size", "nullable", "default", "unique")] for c in ref[1][0]["columns"]] if ref[0] == "ok" and ref[1] else None
+        got = [[c.get(k) for k in ("name", "type", "size", "nullable", "default", "unique")] for c in (e.get("properties") or {}).get("columns", [])]
+        if want is None or norm(got) != norm(want):
+            diffs.append(diff("TYPE AS TABLE columns vs the same body in CREATE TABLE", "entity-differs", short(want, 300), short(got, 300)))
     if d.get("tcols") is not None:
         got = [[c.get("name"), c.get("type"), c.get("size")] for c in (e.get("properties") or {}).get("columns", [])]
         if got != d["tcols"]:
